@@ -1507,6 +1507,87 @@ def report(ck, tier, case, probs, rerun):
         ck.violation(key, what, {'tier': tier, 'case': case})
 
 
+# ===============================================================================================================
+# Part R: a stored value must satisfy the option as it is declared NOW.  The option file is edited between two
+# configurations (one bound / both bounds of an integer, shrunk / replaced choice lists of a combo and of an array);
+# after `setup --reconfigure` get_option() must give the old value if the new declaration admits it, else the new default,
+# and `meson configure -Dopt=<old value>` must be refused exactly when the new declaration does not admit it.
+def redeclare_cases():
+    cases = []
+
+    def integer(lo, hi, dv):
+        return ("type: 'integer', min: %d, max: %d, value: %d" % (lo, hi, dv), lambda v: lo <= int(v) <= hi, str(dv))
+
+    def combo(ch, dv):
+        return ("type: 'combo', choices: [%s], value: '%s'" % (', '.join("'%s'" % c for c in ch), dv), lambda v: v in ch, dv)
+
+    def array(ch, dv):
+        return ("type: 'array', choices: [%s], value: [%s]" % (', '.join("'%s'" % c for c in ch), ', '.join("'%s'" % c for c in dv)),
+                lambda v: all(x in ch for x in v.split(',')) if v else True, ','.join(dv))
+    base_i = integer(0, 10, 5)
+    for name, new in (('both-bounds', integer(3, 8, 4)), ('min-only', integer(4, 10, 5)), ('max-only', integer(0, 6, 5)),
+                      ('min-only-default-moves', integer(6, 10, 7)), ('max-only-default-moves', integer(0, 3, 2))):
+        for v in ('0', '1', '5', '9', '10'):
+            cases.append({'id': 'int:%s:%s' % (name, v), 'old': base_i[0], 'new': new[0], 'value': v, 'valid_new': new[1](v), 'newdef': new[2]})
+    base_c = combo(['a', 'b', 'c', 'd'], 'a')
+    for name, new in (('shrunk', combo(['a', 'b'], 'a')), ('shrunk-default-moves', combo(['c', 'd'], 'd')), ('replaced', combo(['x', 'b'], 'x')),
+                      ('reordered', combo(['d', 'c', 'b', 'a'], 'd'))):
+        for v in ('a', 'b', 'c', 'd'):
+            cases.append({'id': 'combo:%s:%s' % (name, v), 'old': base_c[0], 'new': new[0], 'value': v, 'valid_new': new[1](v), 'newdef': new[2]})
+    base_a = array(['x', 'y', 'z', 'w'], ['x'])
+    for name, new in (('shrunk', array(['x', 'y'], ['y'])), ('replaced', array(['x', 'q'], ['q']))):
+        for v in ('x', 'y,z', 'w', 'x,y'):
+            cases.append({'id': 'array:%s:%s' % (name, v), 'old': base_a[0], 'new': new[0], 'value': v, 'valid_new': new[1](v), 'newdef': new[2]})
+    return cases
+
+
+def work_redeclare(case):
+    from verif import mesonproc as mp
+    root = os.path.join(scratch_root(), 'c07r.%d' % os.getpid())
+    shutil.rmtree(root, ignore_errors=True)
+    src, bld = os.path.join(root, 'src'), os.path.join(root, 'b')
+    mb = "project('r', meson_version: '>=1.1')\no = get_option('opt')\nmessage('VERIF-R|@0@|'.format(o))\n"
+    mp.write_tree(src, {'meson.build': mb, 'meson.options': "option('opt', %s)\n" % case['old']})
+    probs = []
+
+    def obs(out):
+        m = re.search(r'Message: VERIF-R\|(.*)\|', out)
+        if not m:
+            return None
+        v = m.group(1)
+        if v.startswith('['):
+            v = ','.join(x.strip().strip("'") for x in v.strip('[]').split(',') if x.strip())
+        return v
+    r = mp.run_meson(['setup', '--backend=none', bld, src, '-Dopt=' + case['value']], root)
+    if r.rc != 0 or obs(r.out) != case['value']:
+        shutil.rmtree(root, ignore_errors=True)
+        return case['id'], [('C07:INTERNAL', 'redeclare: initial setup with -Dopt=%s failed or reads %r: %s' % (case['value'], obs(r.out), r.out[-300:]))]
+    with open(os.path.join(src, 'meson.options'), 'w') as f:
+        f.write("option('opt', %s)\n" % case['new'])
+    r = mp.run_meson(['setup', '--reconfigure', bld, src], root)
+    exp = case['value'] if case['valid_new'] else case['newdef']
+    if r.unhandled:
+        probs.append(('C07:redeclare:unhandled-exception', '%s: reconfigure after the edit dies with a traceback: %s' % (case['id'], r.out[-300:])))
+    elif r.rc != 0:
+        probs.append(('C07:redeclare:reconfigure-fails', '%s: reconfigure after the edit fails: %s' % (case['id'], r.out[-300:])))
+    else:
+        got = obs(r.out)
+        if got != exp:
+            kind = 'stored-value-outside-new-declaration' if not case['valid_new'] and got == case['value'] else 'value'
+            probs.append(('C07:redeclare:%s:%s' % (kind, case['id'].split(':')[0]),
+                          '%s: option declared as (%s), value %s given, then declared as (%s): get_option() gives %r, expected %r'
+                          % (case['id'], case['old'], case['value'], case['new'], got, exp)))
+        r2 = mp.run_meson(['configure', bld, '-Dopt=' + case['value']], root)
+        if (r2.rc == 0) != case['valid_new'] and not r2.unhandled:
+            probs.append(('C07:redeclare:%s:%s' % ('invalid-accepted' if r2.rc == 0 else 'valid-rejected', case['id'].split(':')[0]),
+                          '%s: after the edit `meson configure -Dopt=%s` %s although the new declaration (%s) %s it'
+                          % (case['id'], case['value'], 'succeeds' if r2.rc == 0 else 'fails', case['new'], 'admits' if case['valid_new'] else 'does not admit')))
+        if r2.unhandled:
+            probs.append(('C07:redeclare:unhandled-exception', '%s: meson configure dies with a traceback: %s' % (case['id'], r2.out[-300:])))
+    shutil.rmtree(root, ignore_errors=True)
+    return case['id'], probs
+
+
 def main():
     ck = Check('C07', 'exploration')
     if ck.args.replay:
@@ -1586,6 +1667,20 @@ def main():
         ck.require(agree > 0, 'tier A / tier B cross-validation never ran')
         files, argv = b_tree(cases[len(cases) // 2]['scn'])
         ck.sample({'tierB_argv': argv, 'meson.build': files['meson.build'][:600]})
+    if ck.want('R'):
+        from verif import mesonproc as mp
+        mp.preimport()
+        rc = redeclare_cases()
+        nbad = 0
+        for cid, probs in pmap(work_redeclare, rc, chunksize=2):
+            evaluations += 1
+            classes.add('R:' + cid.rsplit(':', 1)[0])
+            for key, what in probs:
+                if key == 'C07:INTERNAL':
+                    ck.internal(what)
+                nbad += 1
+                ck.violation(key, what, {'tier': 'R', 'case': {'id': cid}})
+        ck.part('redeclare', cases=len(rc), violating=nbad)
     ck.assume('reference order transcribed from Builtin-options.md ("The value is overridden in this order"), Machine-files.md '
               '("Command line > Machine file > Build system definitions"), Build-options.md (yield, types), project/subproject yaml docs')
     ck.assume('non-yielding subproject project option: unprefixed opt=value addresses the parent\'s option of that name, never the subproject\'s')
@@ -1608,6 +1703,16 @@ def replay(ck):
     d = json.load(open(ck.args.replay))
     case = d['case']
     tier = d['tier']
+    if tier == 'R':
+        from verif import mesonproc as mp
+        mp.preimport()
+        c = [x for x in redeclare_cases() if x['id'] == case['id']][0]
+        print('replay redeclare case', c['id'], '| old:', c['old'], '| value:', c['value'], '| new:', c['new'])
+        cid, probs = work_redeclare(c)
+        for k, w in probs:
+            print('observed:', k, w)
+        print('still violates' if probs else 'no violation')
+        sys.exit(1 if probs else 0)
     print('replay tier %s family %s meta %s' % (tier, case['fam'], json.dumps(case['meta'], default=repr)))
     if tier == 'A':
         res = run_a(case['scn'], real_argparse=case.get('argparse', False))
